@@ -23,6 +23,7 @@ def run(check):
     check.guarded("PAREN-WRAP", X.rule_paren_wrap)
     check.guarded("FANOUT", X.rule_fanout)
     check.guarded("OPTCHAIN-LOWERING", X.rule_optchain_lowering)
+    check.guarded("OPTCHAIN-LINK-FLAG", X.rule_optchain_link_flag)
     check.guarded("CALL-EMISSION", X.rule_call_emission)
     from . import c04
 
